@@ -12,7 +12,30 @@ CHECKS = {
 }
 
 
+def normalise_signals():
+    """A check may be started under nohup (SIGHUP ignored) or as a background job of a non-interactive shell (SIGINT and
+    SIGQUIT ignored).  Ignored dispositions survive exec, so every child pexpect starts for us would ignore those signals
+    too - and the lifecycle / deadline / interact checks send exactly those signals and reason about their default effect.
+    A signal that is *caught* is reset to its default action by exec: each inherited "ignore" (other than the two the
+    interpreter itself sets, SIGPIPE and SIGXFSZ) is replaced by a handler that does nothing - the harness keeps ignoring
+    the signal, its exec'ed children start with the default action."""
+    import signal
+    keep = {getattr(signal, n) for n in ('SIGPIPE', 'SIGXFSZ') if hasattr(signal, n)}
+    changed = []
+    for sig in range(1, signal.NSIG):
+        if sig in keep or sig in (signal.SIGKILL, signal.SIGSTOP):
+            continue
+        try:
+            if signal.getsignal(sig) is signal.SIG_IGN:
+                signal.signal(sig, lambda *a: None)
+                changed.append(sig)
+        except (OSError, ValueError, RuntimeError):
+            pass
+    return changed
+
+
 def main(argv=None):
+    normalise_signals()
     ap = argparse.ArgumentParser()
     ap.add_argument('pid')
     ap.add_argument('--tier', default=os.environ.get('VERIF_TIER', 'quick'), choices=['quick', 'thorough'])
